@@ -82,7 +82,10 @@ def gen_table(rng, n_enums, big=False):
         fields.append("flag")
     rng.shuffle(fields)
     recs = []
-    for i in range(rng.choice([0, 1, 2, 3, 5, 8, 12] + ([25, 55] if big else []))):
+    sizes = [0, 1, 2, 3, 5, 8, 12] + ([25, 55] if big else [])
+    if rng.random() < 0.03:
+        sizes = [52, 64]
+    for i in range(rng.choice(sizes)):
         rec = []
         for f in fields:
             if f == "id":
